@@ -117,3 +117,116 @@ pub unsafe fn list_mutex_is_free(mutex: usize) -> bool {
     // SAFETY: guaranteed by the caller
     unsafe { crate::value::list::verif_mutex_is_free(mutex) }
 }
+
+/// A scalar value for [`Lowered::eval`]
+#[derive(Clone, Copy, Debug, PartialEq)]
+#[allow(missing_docs)]
+pub enum Scalar {
+    Bool(bool),
+    U8(u8),
+    U16(u16),
+    U32(u32),
+    U64(u64),
+    I8(i8),
+    I16(i16),
+    I32(i32),
+    I64(i64),
+    F32(f32),
+    F64(f64),
+    Char(char),
+}
+
+/// A script lowered to LIR, which can be evaluated by the IR evaluator and
+/// then turned into machine code from the very same IR.
+pub struct Lowered<'r, C: crate::runtime::OptCtx>(
+    crate::pipeline::LoweredToLir<'r, C>,
+);
+
+/// Parse, type check and lower a script to LIR.
+pub fn lower<C: crate::runtime::OptCtx>(
+    tree: crate::FileTree,
+    rt: &crate::Runtime<C>,
+) -> Result<Lowered<'_, C>, crate::RotoReport> {
+    let checked = tree.parse()?.typecheck(rt)?;
+    Ok(Lowered(checked.lower_to_mir().lower_to_lir()))
+}
+
+/// What the IR evaluator produced
+#[derive(Clone, Debug, PartialEq)]
+pub struct Evaluated {
+    /// The value returned directly (functions returning a scalar)
+    pub value: Option<Scalar>,
+    /// The bytes written through the return pointer (`ret_size` of them)
+    pub ret_bytes: Vec<u8>,
+}
+
+impl<C: crate::runtime::OptCtx> Lowered<'_, C> {
+    /// Evaluate the function `pkg.main` with the IR evaluator.
+    ///
+    /// If the function returns through a pointer, `ret_size` bytes are
+    /// allocated for the return value and returned in [`Evaluated::ret_bytes`].
+    /// Panics if the evaluator panics.
+    pub fn eval(
+        &self,
+        args: &[Scalar],
+        return_by_ptr: bool,
+        ret_size: usize,
+    ) -> Evaluated {
+        use crate::lir::{eval::Memory, value::IrValue};
+        let mut mem = Memory::new();
+        let ctx = IrValue::Pointer(mem.allocate(0));
+        let mut ir_args = Vec::new();
+        let ret_ptr = if return_by_ptr {
+            let p = mem.allocate(ret_size);
+            ir_args.push(IrValue::Pointer(p));
+            Some(p)
+        } else {
+            None
+        };
+        for a in args {
+            ir_args.push(match *a {
+                Scalar::Bool(x) => IrValue::Bool(x),
+                Scalar::U8(x) => IrValue::U8(x),
+                Scalar::U16(x) => IrValue::U16(x),
+                Scalar::U32(x) => IrValue::U32(x),
+                Scalar::U64(x) => IrValue::U64(x),
+                Scalar::I8(x) => IrValue::I8(x),
+                Scalar::I16(x) => IrValue::I16(x),
+                Scalar::I32(x) => IrValue::I32(x),
+                Scalar::I64(x) => IrValue::I64(x),
+                Scalar::F32(x) => IrValue::F32(x),
+                Scalar::F64(x) => IrValue::F64(x),
+                Scalar::Char(x) => IrValue::Char(x),
+            });
+        }
+        let res = self.0.eval(&mut mem, ctx, ir_args);
+        let value = res.and_then(|v| {
+            Some(match v {
+                IrValue::Bool(x) => Scalar::Bool(x),
+                IrValue::U8(x) => Scalar::U8(x),
+                IrValue::U16(x) => Scalar::U16(x),
+                IrValue::U32(x) => Scalar::U32(x),
+                IrValue::U64(x) => Scalar::U64(x),
+                IrValue::I8(x) => Scalar::I8(x),
+                IrValue::I16(x) => Scalar::I16(x),
+                IrValue::I32(x) => Scalar::I32(x),
+                IrValue::I64(x) => Scalar::I64(x),
+                IrValue::F32(x) => Scalar::F32(x),
+                IrValue::F64(x) => Scalar::F64(x),
+                IrValue::Char(x) => Scalar::Char(x),
+                IrValue::Asn(x) => Scalar::U32(x.into_u32()),
+                IrValue::Pointer(_) => return None,
+            })
+        });
+        let ret_bytes = match ret_ptr {
+            Some(p) => mem.read_slice(p, ret_size).to_vec(),
+            None => Vec::new(),
+        };
+        Evaluated { value, ret_bytes }
+    }
+
+    /// Generate machine code from the same lowered IR.
+    pub fn codegen(self) -> crate::Package<C> {
+        self.0.codegen()
+    }
+}
